@@ -41,7 +41,7 @@ EXPLANATION = (
     "theorem itself."
 )
 # obligations added during the build phase (seeding rounds, twins, mutation analysis)
-ADDED_IN_BUILD = ' Also: every scorer-valued hyper-parameter of the formula scenarios is an arbitrary user scorer (un-interpreted number of parameters, un-interpreted min_size); fitted penalties / thresholds are written by fit only (C10.c re-run).'
+ADDED_IN_BUILD = ' Also: every scorer-valued hyper-parameter of the formula scenarios is an arbitrary user scorer (un-interpreted number of parameters, un-interpreted min_size); fitted penalties / thresholds are written by fit only (C10.c re-run). param-size: get_param_size of the three built-in costs equals the number of free parameters of their models (p, 2p, p + p(p+1)/2) for p = 1, 2, 3, 5, 8.'
 EXPLANATION = EXPLANATION + ADDED_IN_BUILD
 
 ASSUMPTIONS = [
